@@ -69,6 +69,7 @@ class Unit:
         self.baseline = baseline or {}
         self.cur_changed = False
         self.out = []        # list of (text_line, origin)
+        self.auto_consts = {}
         self.report = {"items": [], "rewrites": {}, "fuzzy_anchors": [], "canaries": [], "degraded": []}
         self._src = {}
 
@@ -425,11 +426,26 @@ class Unit:
                 if c:
                     self.count(rn, c)
         crow = [[x, ("sidecar", l)] for l, x in contract]
+        # module-level `const NAME: T = literal-expression;` items of the same source file that the body
+        # refers to and the sidecar does not define are carried along verbatim (so a body that starts using
+        # a new file-local constant stays decidable); recorded as "auto-const:<NAME>"
+        tmpl_text = open(self.tmpl_path).read()
+        raw = open(os.path.join(REPO, rel)).read()
+        for ident in sorted(set(re.findall(r"\b[A-Z][A-Z0-9_]{2,}\b", "\n".join(r[0] for r in rows)))):
+            if re.search(r"\bconst\s+%s\b" % ident, tmpl_text) or ident in self.auto_consts:
+                continue
+            m = re.search(r"^(?:pub(?:\([a-z]+\))?\s+)?const\s+%s\s*:\s*(u8|u16|u32|u64|usize|i32|i64|bool)\s*=\s*([^;{}]+);" % ident, raw, re.M)
+            if m:
+                self.auto_consts[ident] = ("pub const %s: %s = %s;" % (ident, m.group(1), m.group(2).strip()), rel, raw[:m.start()].count("\n") + 1)
+                self.count("auto-const:%s" % ident)
         for t, o in srows + crow + rows:
             self.out.append((t, o))
 
     # ---------------------------------------------------------------------------------------------
     def write(self, path):
+        if self.auto_consts:
+            idx = max(k for k, (t, _) in enumerate(self.out) if t.startswith("} // verus!"))
+            self.out[idx:idx] = [(t, ("repo", rel, ln)) for (t, rel, ln) in self.auto_consts.values()]
         with open(path, "w") as f:
             f.write("\n".join(t for t, _ in self.out) + "\n")
         self.report["line_map"] = [list(o) for _, o in self.out]
